@@ -706,3 +706,126 @@ def m_hex2(ctx, args, kw):
 
 
 NATIVE_MODELS[hex] = m_hex2
+
+
+# ------------------------------------------------------------------ bit strings (BIP39)
+class BitStr(L.SymVal):
+    """a string over {0,1}: value and width.  width None = variable width (bin(x)[2:] possibly followed by
+    fixed-width parts): `lead` is the leading number rendered without padding, `tail_w` the fixed width after it.
+    BitStr axioms (S5): bin(x)[2:] is the shortest binary numeral of x >= 0 ('0' for 0); zfill pads with
+    '0' on the left; re.findall('.'*k, s) cuts s into consecutive k-character chunks."""
+    def __init__(self, val, width, lead=None, tail_w=0, bounded=False):
+        self.val, self.width, self.lead, self.tail_w = val, width, lead, tail_w
+        self.bounded = bounded or (not is_sym(val) and width is not None and 0 <= val < 2 ** width)
+
+    def sym_type(self):
+        return str
+
+    def sym_getattr(self, ctx, name):
+        if name == "zfill":
+            def zfill(w):
+                w = simplify_native(w)
+                if is_sym(w):
+                    raise Undecided("zfill with symbolic width")
+                if self.width is not None:
+                    return BitStr(self.val, max(self.width, w), bounded=self.bounded)
+                # variable width: need lead < 2^(w - tail_w) (then the numeral fits) and w - tail_w >= 1
+                room = w - self.tail_w
+                if room >= 1 and not ctx.feasible(lnot(land(self.lead >= 0, self.lead < 2 ** room))):
+                    # the whole value is below 2^w: name it, so that later slices are small terms
+                    v = L.define("bits", self.val)
+                    if is_sym(v):
+                        L.sink().add(z3.And(v >= 0, v < 2 ** w))
+                    return BitStr(v, w, bounded=True)
+                raise Undecided("zfill: cannot bound the width of a binary numeral")
+            return zfill
+        raise Undecided("BitStr." + name)
+
+    def sym_subscript(self, ctx, idx):
+        if self.width is None:
+            raise Undecided("slice of a variable-width bit string")
+        W = self.width
+        if isinstance(idx, slice):
+            a, b = simplify_native(idx.start), simplify_native(idx.stop)
+            if is_sym(a) or is_sym(b):
+                raise Undecided("symbolic slice of a bit string")
+            a, b, _ = slice(a, b).indices(W)
+            if b <= a:
+                return ""
+            if a == 0 and self.bounded:
+                v = L.fdiv(self.val, 2 ** (W - b)) if W > b else self.val      # no reduction needed: val < 2^W
+            else:
+                v = L.fmod(L.fdiv(self.val, 2 ** (W - b)), 2 ** (b - a))
+            v = L.define("slice", v)
+            if is_sym(v):
+                L.sink().add(z3.And(v >= 0, v < 2 ** (b - a)))
+            return BitStr(v, b - a, bounded=True)
+        raise Undecided("index into a bit string")
+
+    def sym_binop(self, ctx, op, other, reflected):
+        if not isinstance(op, ast.Add):
+            raise Undecided("BitStr operator")
+        o = other
+        if isinstance(o, str):
+            if o == "":
+                return self
+            if set(o) <= {"0", "1"}:
+                o = BitStr(int(o, 2), len(o))
+            else:
+                raise Undecided("BitStr + non-binary text")
+        if not isinstance(o, BitStr):
+            raise Undecided("BitStr + " + type(o).__name__)
+        left, right = (o, self) if reflected else (self, o)
+        if right.width is None:
+            raise Undecided("variable-width bit string on the right of +")
+        val = left.val * (2 ** right.width) + right.val
+        if left.width is None:
+            return BitStr(val, None, lead=left.lead, tail_w=left.tail_w + right.width)
+        return BitStr(val, left.width + right.width, bounded=left.bounded and right.bounded)
+
+    def sym_int(self, ctx, *a):
+        if not a or simplify_native(a[0]) != 2:
+            raise Undecided("int() of a bit string in a base other than 2")
+        if self.width == 0:
+            raise PyRaise(ValueError)
+        return self.val
+
+    def sym_len(self, ctx=None):
+        if self.width is None:
+            raise Undecided("len of a variable-width bit string")
+        return self.width
+
+
+class BinNum(L.SymVal):
+    def __init__(self, n):
+        self.n = n
+
+    def sym_subscript(self, ctx, idx):
+        if isinstance(idx, slice) and idx.start == 2 and idx.stop is None:
+            if not ctx.branch(self.n >= 0):
+                raise Undecided("bin() of a negative number")
+            return BitStr(self.n, None, lead=self.n, tail_w=0)
+        raise Undecided("BinNum subscript")
+
+    def sym_type(self):
+        return str
+
+
+def m_bin2(ctx, args, kw):
+    v = simplify_native(args[0])
+    if is_sym(v) and z3.is_int(v):
+        return BinNum(v)
+    raise Undecided("bin() of symbolic")
+
+
+NATIVE_MODELS[bin] = m_bin2
+
+
+@nmodel(re.findall)
+def m_findall(ctx, args, kw):
+    pat, s = args[0], args[1]
+    if isinstance(s, BitStr) and isinstance(pat, str) and pat and set(pat) == {"."} and s.width is not None:
+        k = len(pat)
+        n = s.width // k
+        return ctx.new_list([s.sym_subscript(ctx, slice(j * k, (j + 1) * k)) for j in range(n)])
+    raise Undecided("re.findall on symbolic text")
